@@ -62,6 +62,33 @@ class Ctx:
         return "%s:%d (%s)" % (body.file, line, body.path)
 
 
+class Retag:
+    """View of a Ctx that records under another property's rule ids with a prefix: lets a property re-use a rule that is a
+    necessary condition of several properties (e.g. `C12.R9` evaluated inside the C13 check)."""
+
+    def __init__(self, ctx, prefix):
+        self._ctx = ctx
+        self._prefix = prefix
+
+    def __getattr__(self, name):
+        return getattr(self._ctx, name)
+
+    def ok(self, rule, key, detail="", loc=None):
+        self._ctx.ok(self._prefix + rule, key, detail, loc)
+
+    def fail(self, rule, key, msg, loc=None, kind="violation"):
+        self._ctx.fail(self._prefix + rule, key, msg, loc, kind)
+
+    def cannot(self, rule, key, msg, loc=None):
+        self._ctx.cannot(self._prefix + rule, key, msg, loc)
+
+    def check(self, cond, rule, key, okdetail, failmsg="", loc=None):
+        return self._ctx.check(cond, self._prefix + rule, key, okdetail, failmsg, loc)
+
+    def floor(self, rule, what, counted, minimum):
+        self._ctx.floor(self._prefix + rule, what, counted, minimum)
+
+
 def load_known():
     if not os.path.exists(KNOWN_PATH):
         return {"findings": [], "fixed": []}
